@@ -18,6 +18,7 @@ from mc.core import Acc
 from mc.vloop import VLoop, tb_where
 from mc.ndnenv import HFace, FRONTENDS, owned_env
 from mc.ref import ndn_strict as ns
+from mc.ref import tlv_strict as ts
 
 PROPERTY = 'C19'
 PREFIX = '/obj/v1'
@@ -50,6 +51,16 @@ def extra_configs():
                 for k in (0, n - 1):
                     yield {'n': n, 'k': k, 'final': 'last-only', 'retry': retry, 'form': form}
     yield {'n': 2, 'k': 1, 'final': 'last-only', 'retry': 3, 'form': 'gen', 'ver': True}
+    # no validator argument: the application's own default Data validator decides
+    for retry in (1, 2):
+        for n in (0, 2):
+            for k in (range(n) if n else (None,)):
+                yield {'n': n, 'k': k, 'final': 'last-only' if n else 'absent', 'retry': retry, 'dv': True}
+    # the forwarder numbers its link-layer packets: every answer arrives in an LpPacket with a Sequence header
+    for retry in (1, 2):
+        for n in (0, 1, 3):
+            for k in (range(n) if n else (None,)):
+                yield {'n': n, 'k': k, 'final': 'last-only' if n else 'absent', 'retry': retry, 'lp': True}
 
 
 def final_of(cfg, seg):
@@ -134,6 +145,8 @@ def execute(cfg, decisions):
     out.requests = []
     out.yields = []
     out.terminal = None
+    out.seen_nonces = set()
+    out.dup_nonce = False
     state = {'invalid': False}
     with loop, owned_env(loop):
         face = HFace()
@@ -167,6 +180,13 @@ def execute(cfg, decisions):
             else:
                 kind, seg = 'other', None
             out.requests.append({'kind': kind, 'seg': seg, 'cbp': r['cbp'], 'mbf': r['mbf'], 'lifetime': r['lifetime']})
+            # a forwarder detects a repeated (name, nonce) pair as a loop and answers Nack(Duplicate)
+            key = (tuple(name), r['nonce'])
+            if key in out.seen_nonces:
+                out.dup_nonce = True
+                face.deliver(bytes(enc.make_network_nack(wire, 100)))
+                return
+            out.seen_nonces.add(key)
             if kind == 'other':
                 return
             if kind == 'seg' and (cfg['n'] == 0 or seg >= cfg['n']):
@@ -174,13 +194,19 @@ def execute(cfg, decisions):
             if d == 'd':
                 return
             if d in ('n', 'N'):
-                face.deliver(bytes(enc.make_network_nack(wire, 150 if d == 'n' else 100)))
+                nack = bytes(enc.make_network_nack(wire, 150 if d == 'n' else 100))
+                if cfg.get('lp'):
+                    top = ts.read_single(nack)
+                    nack = ts.tlv(0x64, ts.tlv(0x51, out.attempts.to_bytes(8, 'big')) + nack[top.vstart:])
+                face.deliver(nack)
                 return
             if kind == 'disc':
                 data = seg_data(cfg['k']) if cfg['n'] else bytes(enc.make_data(dbase, enc.MetaInfo(freshness_period=1000), b'whole-object', DigestSha256Signer()))
             else:
                 data = seg_data(seg)
             state['invalid'] = d == 'i'
+            if cfg.get('lp'):
+                data = ts.tlv(0x64, ts.tlv(0x51, out.attempts.to_bytes(8, 'big')) + ts.tlv(0x50, data))
             face.deliver(data)
         face.on_send = on_send
 
@@ -191,7 +217,12 @@ def execute(cfg, decisions):
 
         async def consumer():
             try:
-                async for content in segment_fetcher(app, name_arg, timeout=100, retry_times=cfg['retry'], validator=validator):
+                if cfg.get('dv'):
+                    app.data_validator = validator
+                    gen = segment_fetcher(app, name_arg, timeout=100, retry_times=cfg['retry'])
+                else:
+                    gen = segment_fetcher(app, name_arg, timeout=100, retry_times=cfg['retry'], validator=validator)
+                async for content in gen:
                     out.yields.append(bytes(content))
                 out.terminal = 'ok'
             except nt.InterestTimeout:
@@ -216,7 +247,7 @@ def judge(cfg, decisions, run):
     viol = []
     ys, term, reqs = reference(cfg, decisions)
     want = [b'whole-object' if y == 'U' else b'segment-%d' % y for y in ys]
-    tag = f"n={cfg['n']}|k={cfg['k']}|final={cfg['final']}" + ('|versioned' if cfg.get('ver') else '') + (f"|name-as-{cfg['form']}" if cfg.get('form') else '')
+    tag = f"n={cfg['n']}|k={cfg['k']}|final={cfg['final']}" + ('|versioned' if cfg.get('ver') else '') + (f"|name-as-{cfg['form']}" if cfg.get('form') else '') + ('|numbered-envelopes' if cfg.get('lp') else '') + ('|default-validator' if cfg.get('dv') else '')
     if not run.done:
         viol.append(('C19|never-finishes', f'{tag}: fetch did not finish; decisions {decisions}'))
         return viol
@@ -226,6 +257,9 @@ def judge(cfg, decisions, run):
             kind = 'wrong-content'
         viol.append((f'C19|yields-{kind}', f'{tag} retry={cfg["retry"]} decisions {decisions}: yielded {[y.decode() for y in run.yields]}, '
                                             f'expected {[w.decode() for w in want]}'))
+    if run.dup_nonce:
+        viol.append(('C19|re-request-repeats-nonce', f'{tag} retry={cfg["retry"]} decisions {decisions}: a re-request carried the nonce of an earlier '
+                                                      f'Interest with the same name (a forwarder answers that with Nack Duplicate)'))
     if run.terminal != term:
         viol.append((f'C19|terminal|got={run.terminal}|expected={term}', f'{tag} retry={cfg["retry"]} decisions {decisions}: fetch ended with '
                                                                         f'{run.terminal}, expected {term}'))
